@@ -1339,6 +1339,16 @@ def a8(prog: Program, chk: Check) -> None:
                 "an independent copy / a new array is stored" if ok else
                 "the object keeps the caller's buffer: writing into that array later changes "
                 "what was set (the sibling classes store np.array(..) copies)", st)
+    ic = input_conversions(prog)
+    if len(ic) < 3:
+        raise AnalysisError(f"A8: only {len(ic)} array conversions found in the input-checking "
+                            f"helpers (floor 3)")
+    for (cu, c, ok) in ic:
+        chk.saw(cu)
+        chk.add("A8", cu, f"{norm(c)[:60]}", ok,
+                "the argument is copied" if ok else
+                "the argument is converted without a copy: an object built from a complex128 "
+                "array shares the caller's buffer and changes when that array is overwritten", c)
     ch = prog.unit("system:_check_hamiltonian")
     v = conversion_of(ch, "hamiltonian")
     ok = v is not None and isinstance(v, ast.Call) and \
@@ -1365,6 +1375,11 @@ def _aliases_param(mod, du: DefUse, nid: int, v: ast.AST, params, depth: int = 0
         for d in ds:
             if d.sel == (("param",),) and v.id in params:
                 return v.id
+            if d.sel and d.sel[0] == ("iter",) and d.value is not None:
+                # an element of a container the caller passed in
+                for y in ast.walk(d.value):
+                    if isinstance(y, ast.Name) and y.id in params:
+                        return y.id
             if d.value is not None and not d.sel and d.node != nid:
                 r = _aliases_param(mod, du, d.node, d.value, params, depth + 1)
                 if r:
@@ -1389,6 +1404,33 @@ def _aliases_param(mod, du: DefUse, nid: int, v: ast.AST, params, depth: int = 0
             if r:
                 return r
     return None
+
+
+def input_conversions(prog: Program):
+    """[(unit, call, ok)] for the input-checking helpers (`_check_*`, `_parse_state`): every
+    conversion of (an element of) an argument into an array is a copying one."""
+    out = []
+    for u in prog.units.values():
+        if isinstance(u.node, ast.Lambda) or u.cls is not None or u.parent is not None:
+            continue
+        if not (u.name.startswith("_check_") or u.name in ("_parse_state",)):
+            continue
+        params = [p for p in u.params]
+        du = DefUse(u, CFG(u.node, exc_edges=False))
+        for c in walk_local(u.node):
+            if not (isinstance(c, ast.Call) and c.args):
+                continue
+            r = (_resolve(u.module, c) or "").replace("np.", "numpy.")
+            if r not in ALIASING_CALLS and r != "numpy.array":
+                continue
+            nid = du.node_of(c)
+            if nid is None:
+                continue
+            src = _aliases_param(u.module, du, nid, c.args[0], params)
+            if src is None:
+                continue
+            out.append((u, c, _aliases_param(u.module, du, nid, c, params) is None))
+    return out
 
 
 def setter_copies(prog: Program, table=None):
